@@ -221,10 +221,13 @@ None."""
         if self._cachestore is not None:
             parser = self._cachestore.load(filename)
         if parser is None:
+            # If the file changes while it is being parsed, the cache entry
+            # must not look newer than the change.
+            mtime_ns = os.stat(filename).st_mtime_ns
             parser = GIRParser(types_only=not self._passthrough_mode)
             parser.parse(filename)
             if self._cachestore is not None:
-                self._cachestore.store(filename, parser)
+                self._cachestore.store(filename, parser, mtime_ns)
 
         for include in parser.get_namespace().includes:
             if include.name not in self._parsed_includes:
